@@ -285,12 +285,12 @@ def real(pin, page):
 def fold(rep, pid):
     """run the lemma and report under property `pid` (C07 / C05: the iff; C04: no exception)."""
     quick = rep.tier == "quick"
-    N = 5 if quick else 6
+    N = 6 if quick else 8  # measured: 87 paths / 17 s at 6, 159 paths / 28 s at 8
     rep.bounds.append(f"pin-cite lemma: _has_invalid_pin_cite on a pin cite of <= {N} arbitrary characters (all of Unicode) and an arbitrary first page")
     rep.stubs.append("int() on a symbolic string: whitespace stripped, optional sign, then the decimal value of Unicode decimal digits; anything else raises ValueError")
     agg = common.explore_split("vf.harness.pinlemma", {"N": N}, depth=3)
     rep.merge_explore("pin_cite_lemma", agg)
-    NP, PP = (2, 2) if quick else (3, 3)
+    NP, PP = (2, 2) if quick else (4, 3)  # measured: 192 paths / 15 s at (2, 2), 1,077 paths / 81 s at (4, 3)
     rep.bounds.append(f"... and with the first page as text: any string of <= {PP} characters accepted by one of the {len(page_union())} page patterns of the installed extractors, pin cite of <= {NP} arbitrary characters")
     agg2 = common.explore_split("vf.harness.pinlemma", {"N": NP, "P": PP}, depth=3)
     rep.merge_explore("pin_cite_lemma_page_text", agg2)
